@@ -9,9 +9,13 @@
      cfgarg  : VL [VN 0; tree] | VL [VN 1; VB s] | VL [VN 2; VB s; VN ok] | VL [VN 3] | VL [VN 4; VN code]
      isrc    : VL [VN 0; dsarg] | VL [VN 1; tree] | VL [VN 2; VN code]
      cmdarg  : VL [VN 0; VB name; VN lx] | VL [VN 1; tree]
-     call    : VL [VN tag; fields...] in constructor order of Builders.opcall (tags 0..18) *)
+     call    : VL [VN tag; fields...] in constructor order of Builders.opcall (tags 0..18)
+   run (VL [VN 8; profile; VB mid; call]) -> VL [VL [tree...]; VL [VN hole...]; VN nvalues]   the carries tables of Spec/CarriesBase.v:
+        the request [wrap (fill (values c) (template p (erase c)))], the holes of the template, the number of values
+   run (VL [VN 9; VB mid; vcall])         -> the same for the vendor classes (Spec/CarriesVendor.v) *)
 From NC Require Import Model.Base Model.Xml Model.Escape Model.Gating Model.Builders Glue.C09_glue.
 From NC Require Import Model.VendorBuilders.
+From NC Require Import Spec.Template Spec.CarriesBase Spec.CarriesVendor.
 From Coq Require Import ZArith.
 
 Definition d_attr (v : val) : qname * bytes :=
@@ -220,6 +224,8 @@ Definition e_vres (r : vres) : val :=
   | VNothing => VL [VN 2]
   end.
 
+Definition e_nat (n : nat) : val := VN (N.of_nat n).
+
 Definition run (v : val) : val :=
   match v with
   | VL [VN 1; p; VB mid; c] =>
@@ -237,6 +243,21 @@ Definition run (v : val) : val :=
   | VL [VN 5; VB s] => vbool (xml_chars_ok s)
   | VL [VN 6; VB mid; c] =>
       match d_vcall c with Some c' => e_vres (vbuild mid c') | None => verr 1 end
+  | VL [VN 8; p; VB mid; c] =>
+      match d_profile p, d_opcall c with
+      | Some p', Some c' =>
+          let t := template p' (erase c') in
+          VL [VL (map (fun op => e_tree (wrap p' mid op)) (fill (values c') t)); VL (map e_nat (holes t)); e_nat (length (values c'))]
+      | _, _ => verr 1
+      end
+  | VL [VN 9; VB mid; c] =>
+      match d_vcall c with
+      | Some c' =>
+          let t := vtemplate (verase c') in
+          VL [VL (map (fun op => e_tree (vwrap (vmode (vcall_prof c')) mid op)) (fill (vvalues c') t)); VL (map e_nat (holes t));
+              e_nat (length (vvalues c'))]
+      | None => verr 1
+      end
   | VL [VN 7; VN m; VB mid; c] =>
       match d_vcall c with
       | Some c' => e_vres (vbuild_under (if N.eqb m 0 then Prefixed else DefaultNs) mid c')
